@@ -319,7 +319,8 @@ def compare(op, a, b):
 
 
 class Interp(object):
-    def __init__(self, program, mode="put", quiet=False, presets=None, flatsep="."):
+    def __init__(self, program, mode="put", quiet=False, presets=None, flatsep=".", invert=False):
+        self.invert = invert        # filter -x
         self.funcs, self.subrs, self.begins, self.ends, self.main = {}, {}, [], [], []
         for s in program:
             if s[0] == "func":
@@ -361,7 +362,9 @@ class Interp(object):
             self.run_top_block(self.main, main=True)
             keep = True
             if self.mode == "filter":
-                keep = self.filter_result if self.filter_result is not None else True
+                if self.filter_result is None:
+                    raise Unmodelled("filter program without a bare boolean")
+                keep = self.filter_result != self.invert
             elif self.filter_result is not None:
                 keep = self.filter_result
             if keep and not self.quiet:
